@@ -33,7 +33,7 @@ theorem Uint128_Components_eq (u : U128) : Gen.Uint128_Components u = (u.hi, u.l
 theorem Uint128_IsZero_eq : Gen.Uint128_IsZero = U128.isZero := by
   funext u; gen_tie [Gen.Uint128_IsZero, U128.isZero]
 theorem Uint128_IsInt128_eq : Gen.Uint128_IsInt128 = U128.isInt128 := by
-  funext u; gen_tie [Gen.Uint128_IsInt128, U128.isInt128, U128.signBit]
+  funext u; gen_tie [Gen.Uint128_IsInt128, U128.isInt128] [U128.signBit]
 theorem Uint128_AsInt128_eq : Gen.Uint128_AsInt128 = I128.ofU := by
   funext u; gen_tie [Gen.Uint128_AsInt128, I128.ofU]
 theorem Uint128_IsUint64_eq : Gen.Uint128_IsUint64 = U128.isUint64 := by
@@ -58,7 +58,7 @@ theorem Uint128_Dec_eq : Gen.Uint128_Dec = U128.dec := by
 theorem Uint128_Mul_eq : Gen.Uint128_Mul = U128.mul := by
   funext u n; gen_tie [Gen.Uint128_Mul, U128.mul]
 theorem Uint128_Mul64_eq : Gen.Uint128_Mul64 = U128.mulW := by
-  funext u n; gen_tie [Gen.Uint128_Mul64, U128.mulW, U128.mask32]
+  funext u n; gen_tie [Gen.Uint128_Mul64, U128.mulW] [U128.mask32]
 
 /-! ## Uint128: ordering -/
 
@@ -130,7 +130,7 @@ theorem Uint128_RightShift_eq (u : U128) (n : W) : Gen.Uint128_RightShift u n = 
 /-! ## Int128: constructors, predicates, conversions -/
 
 theorem Int128From64_eq : Gen.Int128From64 = I128.from64 := by
-  funext v; gen_tie [Gen.Int128From64, I128.from64, I128.ext64, I128.neg64, I128.maxU64]
+  funext v; gen_tie [Gen.Int128From64, I128.from64, I128.ext64, I128.neg64] [I128.maxU64]
 theorem Int128FromUint64_eq : Gen.Int128FromUint64 = I128.fromUint64 := by
   funext v; gen_tie [Gen.Int128FromUint64, I128.fromUint64]
 theorem Int128FromComponents_eq (high low : W) : Gen.Int128FromComponents high low = ⟨high, low⟩ := by
@@ -140,13 +140,13 @@ theorem Int128_Components_eq (i : I128) : Gen.Int128_Components i = (i.hi, i.lo)
 theorem Int128_IsZero_eq : Gen.Int128_IsZero = I128.isZero := by
   funext i; gen_tie [Gen.Int128_IsZero, I128.isZero]
 theorem Int128_IsUint128_eq : Gen.Int128_IsUint128 = I128.isUint128 := by
-  funext i; gen_tie [Gen.Int128_IsUint128, I128.isUint128, U128.signBit]
+  funext i; gen_tie [Gen.Int128_IsUint128, I128.isUint128] [U128.signBit]
 theorem Int128_AsUint128_eq : Gen.Int128_AsUint128 = I128.toU := by
   funext i; gen_tie [Gen.Int128_AsUint128, I128.toU]
 theorem Int128_IsInt64_eq : Gen.Int128_IsInt64 = I128.isInt64 := by
-  funext i; gen_tie [Gen.Int128_IsInt64, I128.isInt64, I128.maxU64, I128.maxI64, U128.signBit]
+  funext i; gen_tie [Gen.Int128_IsInt64, I128.isInt64] [I128.maxU64, I128.maxI64, U128.signBit]
 theorem Int128_AsInt64_eq : Gen.Int128_AsInt64 = I128.asInt64 := by
-  funext i; gen_tie [Gen.Int128_AsInt64, I128.asInt64, U128.signBit]
+  funext i; gen_tie [Gen.Int128_AsInt64, I128.asInt64] [U128.signBit]
 theorem Int128_IsUint64_eq : Gen.Int128_IsUint64 = I128.isUint64 := by
   funext i; gen_tie [Gen.Int128_IsUint64, I128.isUint64]
 theorem Int128_AsUint64_eq : Gen.Int128_AsUint64 = I128.asUint64 := by
@@ -157,11 +157,11 @@ theorem Int128_AsUint64_eq : Gen.Int128_AsUint64 = I128.asUint64 := by
 theorem Int128_Add_eq : Gen.Int128_Add = I128.add := by
   funext i n; gen_tie [Gen.Int128_Add, I128.add]
 theorem Int128_Add64_eq : Gen.Int128_Add64 = I128.addW := by
-  funext i n; gen_tie [Gen.Int128_Add64, I128.addW, I128.neg64, I128.maxU64]
+  funext i n; gen_tie [Gen.Int128_Add64, I128.addW, I128.neg64] [I128.maxU64]
 theorem Int128_Sub_eq : Gen.Int128_Sub = I128.sub := by
   funext i n; gen_tie [Gen.Int128_Sub, I128.sub]
 theorem Int128_Sub64_eq : Gen.Int128_Sub64 = I128.subW := by
-  funext i n; gen_tie [Gen.Int128_Sub64, I128.subW, I128.neg64, I128.maxU64]
+  funext i n; gen_tie [Gen.Int128_Sub64, I128.subW, I128.neg64] [I128.maxU64]
 theorem Int128_Inc_eq : Gen.Int128_Inc = I128.inc := by
   funext i; gen_tie [Gen.Int128_Inc, Gen.Uint128_Inc, I128.inc, U128.inc, I128.ofU, I128.toU]
 theorem Int128_Dec_eq : Gen.Int128_Dec = I128.dec := by
@@ -170,48 +170,101 @@ theorem Int128_Mul_eq : Gen.Int128_Mul = I128.mul := by
   funext i n; gen_tie [Gen.Int128_Mul, I128.mul]
 theorem Int128_Mul64_eq : Gen.Int128_Mul64 = I128.mulW := by
   funext i n
-  gen_tie [Gen.Int128_Mul64, Gen.Int128_Mul, Gen.Int128From64, I128.mulW, I128.mul, I128.from64, I128.ext64, I128.neg64,
-    I128.maxU64]
+  gen_tie [Gen.Int128_Mul64, Gen.Int128_Mul, Gen.Int128From64, I128.mulW, I128.mul, I128.from64, I128.ext64, I128.neg64] [I128.maxU64]
 theorem Int128_Sign_eq (i : I128) : (Gen.Int128_Sign i).toInt = I128.sign i := by
-  gen_tie [Gen.Int128_Sign, I128.sign, U128.signBit]
+  gen_tie [Gen.Int128_Sign, I128.sign] [U128.signBit]
 theorem Int128_Neg_eq : Gen.Int128_Neg = I128.neg := by
-  funext i; gen_tie [Gen.Int128_Neg, Gen.MinInt128, I128.neg, I128.minI128, U128.signBit]
+  funext i; gen_tie [Gen.Int128_Neg, I128.neg] [Gen.MinInt128, I128.minI128, U128.signBit]
 theorem Int128_Abs_eq : Gen.Int128_Abs = I128.abs := by
-  funext i; gen_tie [Gen.Int128_Abs, I128.abs, U128.signBit]
+  funext i; gen_tie [Gen.Int128_Abs, I128.abs] [U128.signBit]
 theorem Int128_AbsUint128_eq : Gen.Int128_AbsUint128 = I128.absUint128 := by
-  funext i; gen_tie [Gen.Int128_AbsUint128, Gen.MinInt128, I128.absUint128, I128.minI128, I128.toU, U128.signBit]
+  funext i; gen_tie [Gen.Int128_AbsUint128, I128.absUint128, I128.toU] [Gen.MinInt128, I128.minI128, U128.signBit]
 
 /-! ## Int128: ordering -/
 
 theorem Int128_Cmp_eq (i n : I128) : (Gen.Int128_Cmp i n).toInt = I128.cmp i n := by
-  gen_tie [Gen.Int128_Cmp, I128.cmp, I128.cmpHL, U128.signBit]
+  gen_tie [Gen.Int128_Cmp, I128.cmp, I128.cmpHL] [U128.signBit]
 theorem Int128_Cmp64_eq (i : I128) (n : W) : (Gen.Int128_Cmp64 i n).toInt = I128.cmpW i n := by
-  gen_tie [Gen.Int128_Cmp64, I128.cmpW, I128.cmpHL, I128.ext64, I128.neg64, I128.maxU64, U128.signBit]
+  gen_tie [Gen.Int128_Cmp64, I128.cmpW, I128.cmpHL, I128.ext64, I128.neg64] [I128.maxU64, U128.signBit]
 theorem Int128_GreaterThan_eq : Gen.Int128_GreaterThan = I128.greaterThan := by
-  funext i n; gen_tie [Gen.Int128_GreaterThan, I128.greaterThan, I128.gtHL, U128.signBit]
+  funext i n; gen_tie [Gen.Int128_GreaterThan, I128.greaterThan, I128.gtHL] [U128.signBit]
 theorem Int128_GreaterThan64_eq : Gen.Int128_GreaterThan64 = I128.greaterThanW := by
   funext i n
-  gen_tie [Gen.Int128_GreaterThan64, I128.greaterThanW, I128.gtHL, I128.ext64, I128.neg64, I128.maxU64, U128.signBit]
+  gen_tie [Gen.Int128_GreaterThan64, I128.greaterThanW, I128.gtHL, I128.ext64, I128.neg64] [I128.maxU64, U128.signBit]
 theorem Int128_GreaterThanOrEqual_eq : Gen.Int128_GreaterThanOrEqual = I128.greaterThanOrEqual := by
-  funext i n; gen_tie [Gen.Int128_GreaterThanOrEqual, I128.greaterThanOrEqual, I128.geHL, U128.signBit]
+  funext i n; gen_tie [Gen.Int128_GreaterThanOrEqual, I128.greaterThanOrEqual, I128.geHL] [U128.signBit]
 theorem Int128_GreaterThanOrEqual64_eq : Gen.Int128_GreaterThanOrEqual64 = I128.greaterThanOrEqualW := by
   funext i n
-  gen_tie [Gen.Int128_GreaterThanOrEqual64, I128.greaterThanOrEqualW, I128.geHL, I128.ext64, I128.neg64, I128.maxU64,
-    U128.signBit]
+  gen_tie [Gen.Int128_GreaterThanOrEqual64, I128.greaterThanOrEqualW, I128.geHL, I128.ext64, I128.neg64] [I128.maxU64, U128.signBit]
 theorem Int128_Equal_eq : Gen.Int128_Equal = I128.equal := by
   funext i n; gen_tie [Gen.Int128_Equal, I128.equal]
 theorem Int128_Equal64_eq : Gen.Int128_Equal64 = I128.equalW := by
-  funext i n; gen_tie [Gen.Int128_Equal64, I128.equalW, I128.ext64, I128.neg64, I128.maxU64]
+  funext i n; gen_tie [Gen.Int128_Equal64, I128.equalW, I128.ext64, I128.neg64] [I128.maxU64]
 theorem Int128_LessThan_eq : Gen.Int128_LessThan = I128.lessThan := by
-  funext i n; gen_tie [Gen.Int128_LessThan, I128.lessThan, I128.ltHL, U128.signBit]
+  funext i n; gen_tie [Gen.Int128_LessThan, I128.lessThan, I128.ltHL] [U128.signBit]
 theorem Int128_LessThan64_eq : Gen.Int128_LessThan64 = I128.lessThanW := by
   funext i n
-  gen_tie [Gen.Int128_LessThan64, I128.lessThanW, I128.ltHL, I128.ext64, I128.neg64, I128.maxU64, U128.signBit]
+  gen_tie [Gen.Int128_LessThan64, I128.lessThanW, I128.ltHL, I128.ext64, I128.neg64] [I128.maxU64, U128.signBit]
 theorem Int128_LessThanOrEqual_eq : Gen.Int128_LessThanOrEqual = I128.lessThanOrEqual := by
-  funext i n; gen_tie [Gen.Int128_LessThanOrEqual, I128.lessThanOrEqual, I128.leHL, U128.signBit]
+  funext i n; gen_tie [Gen.Int128_LessThanOrEqual, I128.lessThanOrEqual, I128.leHL] [U128.signBit]
 theorem Int128_LessThanOrEqual64_eq : Gen.Int128_LessThanOrEqual64 = I128.lessThanOrEqualW := by
   funext i n
-  gen_tie [Gen.Int128_LessThanOrEqual64, I128.lessThanOrEqualW, I128.leHL, I128.ext64, I128.neg64, I128.maxU64,
-    U128.signBit]
+  gen_tie [Gen.Int128_LessThanOrEqual64, I128.lessThanOrEqualW, I128.leHL, I128.ext64, I128.neg64] [I128.maxU64, U128.signBit]
+
+/-! ## transported specifications
+
+Because `X_eq` identifies the regenerated definition with the model function, every theorem of `Props/C01.lean` about
+that function is a theorem about the code as it is now.  A few of them, spelled out. -/
+
+/-- `Uint128.Add`, as read from the source, is addition mod 2^128 (`C01.add_spec`) -/
+theorem gen_add_spec (a b : U128) : (Gen.Uint128_Add a b).toNat = (a.toNat + b.toNat) % 2^128 := by
+  rw [Uint128_Add_eq]; exact C01.add_spec a b
+/-- `Uint128.Sub` is subtraction mod 2^128 (`C01.sub_spec`) -/
+theorem gen_sub_spec (a b : U128) : (Gen.Uint128_Sub a b).toNat = (a.toNat + 2^128 - b.toNat) % 2^128 := by
+  rw [Uint128_Sub_eq]; exact C01.sub_spec a b
+/-- `Uint128.Mul` is multiplication mod 2^128 (`C01.mul_spec`) -/
+theorem gen_mul_spec (a b : U128) : (Gen.Uint128_Mul a b).toNat = (a.toNat * b.toNat) % 2^128 := by
+  rw [Uint128_Mul_eq]; exact C01.mul_spec a b
+/-- `Uint128.Mul64` is multiplication by the word mod 2^128 (`C01.mul64_spec`) -/
+theorem gen_mul64_spec (a : U128) (n : W) : (Gen.Uint128_Mul64 a n).toNat = (a.toNat * n.toNat) % 2^128 := by
+  rw [Uint128_Mul64_eq]; exact C01.mul64_spec a n
+/-- `Uint128.Cmp` returns the Go `int` −1 / 0 / 1 according to the order of the values (`C01.cmp_spec`) -/
+theorem gen_cmp_spec (a b : U128) :
+    (Gen.Uint128_Cmp a b).toInt = if a.toNat < b.toNat then -1 else if a.toNat = b.toNat then 0 else 1 := by
+  rw [Uint128_Cmp_eq]; exact C01.cmp_spec a b
+/-- `Uint128.LessThan` is `<` on the values (`C01.lessThan_spec`) -/
+theorem gen_lessThan_spec (a b : U128) : Gen.Uint128_LessThan a b = decide (a.toNat < b.toNat) := by
+  rw [Uint128_LessThan_eq]; exact C01.lessThan_spec a b
+/-- `Uint128.RightShift` by any Go `uint` count is division by 2^n (`C01.shr_spec`) -/
+theorem gen_rightShift_spec (a : U128) (n : W) : (Gen.Uint128_RightShift a n).toNat = a.toNat / 2^n.toNat := by
+  rw [Uint128_RightShift_eq]; exact C01.shr_spec a n.toNat
+/-- `Uint128.LeftShift` by any Go `uint` count is multiplication by 2^n mod 2^128 (`C01.shl_spec`) -/
+theorem gen_leftShift_spec (a : U128) (n : W) :
+    (Gen.Uint128_LeftShift a n).toNat = (a.toNat * 2^n.toNat) % 2^128 := by
+  rw [Uint128_LeftShift_eq]; exact C01.shl_spec a n.toNat
+/-- `Uint128.OnesCount` counts the set bits of the 128-bit value (`C01.onesCount_spec`, the statement the fixed defect
+    violated) -/
+theorem gen_onesCount_spec (a : U128) :
+    (Gen.Uint128_OnesCount a).toNat = (List.range 128).countP (fun i => a.toNat.testBit i) := by
+  rw [Uint128_OnesCount_eq]; exact C01.onesCount_spec a
+/-- `Uint128.Bit(i)` for every Go `int` index (`C01.bit_spec`) -/
+theorem gen_bit_spec (a : U128) (i : W) :
+    (Gen.Uint128_Bit a i).toNat = if 0 ≤ i.toInt ∧ i.toInt < 128 ∧ a.toNat.testBit i.toInt.toNat then 1 else 0 := by
+  rw [Uint128_Bit_eq]; exact C01.bit_spec a i.toInt
+/-- `Int128.Neg` is negation in two's complement (`C01.neg_spec`) -/
+theorem gen_neg_spec (a : I128) : (Gen.Int128_Neg a).toInt = I128.wrap128 (- a.toInt) := by
+  rw [Int128_Neg_eq]; exact C01.neg_spec a
+/-- `Int128.Sub64` subtracts the `int64` (`C01.isub64_spec`) -/
+theorem gen_isub64_spec (a : I128) (n : W) :
+    (Gen.Int128_Sub64 a n).toInt = I128.wrap128 (a.toInt - I128.int64Val n) := by
+  rw [Int128_Sub64_eq]; exact C01.isub64_spec a n
+/-- `Int128.Cmp64` agrees with the order of ℤ (`C01.icmp64_spec`) -/
+theorem gen_icmp64_spec (a : I128) (n : W) :
+    (Gen.Int128_Cmp64 a n).toInt =
+      if a.toInt < I128.int64Val n then -1 else if a.toInt = I128.int64Val n then 0 else 1 := by
+  rw [Int128_Cmp64_eq]; exact C01.icmp64_spec a n
+/-- `Int128.LessThan` is `<` on ℤ (`C01.ilt_spec`) -/
+theorem gen_ilt_spec (a b : I128) : Gen.Int128_LessThan a b = decide (a.toInt < b.toInt) := by
+  rw [Int128_LessThan_eq]; exact C01.ilt_spec a b
 
 end C01Gen
